@@ -6,6 +6,8 @@ import (
 	"database/sql/driver"
 	"errors"
 	"fmt"
+	"math/rand"
+	"sort"
 	"strings"
 	"sync"
 
@@ -68,12 +70,17 @@ func (t *c18Tx) Rollback() error {
 
 var c18DrvSeq int
 
-type c18Step struct {
-	kind int // 0 ok, 1 fail, 2 panic
+type c18KeyT struct{}
+
+// c18DB is one gorm handle over its own recording fake driver (one pooled connection).
+type c18DB struct {
+	s   *c18Script
+	db  *gorm.DB
+	sdb *sql.DB
 }
 
-func c18RunOne(beginOK, commitOK, rollbackOK bool, steps []int, combined bool) (events []string, result string) {
-	s := &c18Script{beginOK: beginOK, commitOK: commitOK, rollbackOK: rollbackOK}
+func c18NewDB() *c18DB {
+	s := &c18Script{}
 	c18DrvSeq++
 	name := fmt.Sprintf("c18fake%d", c18DrvSeq)
 	sql.Register(name, &c18Driver{s})
@@ -81,47 +88,106 @@ func c18RunOne(beginOK, commitOK, rollbackOK bool, steps []int, combined bool) (
 	if err != nil {
 		panic(err)
 	}
-	defer sdb.Close()
+	sdb.SetMaxOpenConns(1)
 	db, err := gorm.Open(mysql.New(mysql.Config{Conn: sdb, SkipInitializeWithVersion: true}), &gorm.Config{Logger: logger.Discard, SkipDefaultTransaction: true})
 	if err != nil {
 		panic(err)
 	}
-	fns := make([]gormx.GormProcFn, len(steps))
-	for i, k := range steps {
-		i, k := i, k
-		fns[i] = func(txn *gorm.DB) error {
-			// every step issues one statement inside the transaction so that it is visible in the event list
-			if e := txn.Exec(fmt.Sprintf("step%d", i)).Error; e != nil {
-				return fmt.Errorf("exec-error:%v", e)
-			}
-			switch k {
-			case 1:
-				return fmt.Errorf("step-error-%d", i)
-			case 2:
-				panic(fmt.Sprintf("step-panic-%d", i))
-			}
+	return &c18DB{s: s, db: db, sdb: sdb}
+}
+
+// c18StepFn is the i-th step; what it does is read from the script carried by the transaction's context, so that
+// one (shared) step function - and one shared Combine of such functions - serves every transaction.
+// kinds: 0 ok, 1 plain error, 2 panic, 3 error wrapping context.Canceled, 4 error wrapping context.DeadlineExceeded,
+// 5 the step rolls the transaction back itself and returns nil (generated as the last step only).
+func c18StepFn(i int) gormx.GormProcFn {
+	return func(txn *gorm.DB) error {
+		steps, _ := txn.Statement.Context.Value(c18KeyT{}).([]int)
+		k := 0
+		if i < len(steps) {
+			k = steps[i]
+		}
+		// every step issues one statement inside the transaction so that it is visible in the event list
+		if e := txn.Exec(fmt.Sprintf("step%d", i)).Error; e != nil {
+			return fmt.Errorf("exec-error:%v", e)
+		}
+		switch k {
+		case 1:
+			return fmt.Errorf("step-error-%d", i)
+		case 2:
+			panic(fmt.Sprintf("step-panic-%d", i))
+		case 3:
+			return fmt.Errorf("step-error-%d: %w", i, context.Canceled)
+		case 4:
+			return fmt.Errorf("step-error-%d: %w", i, context.DeadlineExceeded)
+		case 5:
+			_ = txn.Rollback()
 			return nil
 		}
+		return nil
 	}
+}
+
+var c18SharedFns = func() []gormx.GormProcFn {
+	fns := make([]gormx.GormProcFn, 8)
+	for i := range fns {
+		fns[i] = c18StepFn(i)
+	}
+	return fns
+}()
+
+// one shared combined step per length (this is what concurrent callers share)
+var c18SharedCombined = func() []gormx.GormProcFn {
+	cs := make([]gormx.GormProcFn, 9)
+	for n := range cs {
+		cs[n] = gormx.Combine(c18SharedFns[:n]...)
+	}
+	return cs
+}()
+
+func (d *c18DB) run(beginOK, commitOK, rollbackOK bool, steps []int, combined bool) (events []string, result string) {
+	d.s.mu.Lock()
+	d.s.beginOK, d.s.commitOK, d.s.rollbackOK = beginOK, commitOK, rollbackOK
+	d.s.events = nil
+	d.s.mu.Unlock()
+	db := d.db.WithContext(context.WithValue(context.Background(), c18KeyT{}, steps))
 	var rerr error
 	var outerPanic interface{}
 	func() {
 		defer func() { outerPanic = recover() }()
 		if combined {
-			rerr = gormx.Transact(db, gormx.Combine(fns...))
+			rerr = gormx.Transact(db, c18SharedCombined[len(steps)])
 		} else {
-			rerr = gormx.Transact(db, fns...)
+			rerr = gormx.Transact(db, c18SharedFns[:len(steps)]...)
 		}
 	}()
-	switch {
-	case outerPanic != nil:
-		result = fmt.Sprintf("ESCAPED-PANIC %v", outerPanic)
-	case rerr == nil:
-		result = "nil"
-	default:
-		result = rerr.Error()
+	func() {
+		// a torn error value (two words written by racing goroutines) makes Error() fault: report it, do not die
+		defer func() {
+			if p := recover(); p != nil {
+				result = fmt.Sprintf("CORRUPT-ERROR-VALUE %v", p)
+			}
+		}()
+		switch {
+		case outerPanic != nil:
+			result = fmt.Sprintf("ESCAPED-PANIC %v", outerPanic)
+		case rerr == nil:
+			result = "nil"
+		default:
+			result = rerr.Error()
+		}
+	}()
+	d.s.mu.Lock()
+	events = append([]string{}, d.s.events...)
+	d.s.mu.Unlock()
+	if d.sdb.Stats().InUse != 0 {
+		// Transact returned but the transaction still holds its connection: it was never finished.
+		// Record it and continue on a fresh handle (the leaked one would block every later Begin).
+		events = append(events, "TX-LEFT-OPEN")
+		fresh := c18NewDBLocked()
+		*d = *fresh
 	}
-	return s.events, result
+	return events, result
 }
 
 // map observation to Coq terms; anything unexpected becomes an event/result the model never produces
@@ -156,6 +222,8 @@ func c18CoqResult(r string) string {
 		return "RBeginErr"
 	case r == "commit-failed":
 		return "RCommitErr"
+	case strings.Contains(r, sql.ErrTxDone.Error()):
+		return "RTxDone"
 	case strings.HasPrefix(r, "step-error-"):
 		fmt.Sscanf(r, "step-error-%d", &i)
 		return fmt.Sprintf("(RStepErr %d)", i)
@@ -166,42 +234,59 @@ func c18CoqResult(r string) string {
 	return "(RStepErr 999)"
 }
 
-// gormx.Transact: every outcome vector for 0..4 steps x begin/commit/rollback
+// gormx.Transact: every outcome vector for 0..4 steps x begin/commit/rollback, direct and through Combine; steps whose
+// error wraps a context error; a last step that finishes the transaction itself; concurrent callers sharing one
+// combined step.
+func c18CoqSteps(steps []int) string {
+	ss := make([]string, len(steps))
+	for i, k := range steps {
+		switch k {
+		case 0:
+			ss[i] = "SOk"
+		case 1, 3, 4:
+			ss[i] = fmt.Sprintf("SFail %d", i)
+		case 2:
+			ss[i] = fmt.Sprintf("SPanic %d", i)
+		case 5:
+			ss[i] = "SDoneRb"
+		}
+	}
+	return vh.CoqList(ss)
+}
+
+func c18Case(comb, b, c, r bool, steps []int, ev []string, res string, class string, extra map[string]interface{}) vh.Case {
+	coq := fmt.Sprintf("(%s, {| begin_ok := %s; commit_ok := %s; rollback_ok := %s; steps := %s |}, (%s, %s))",
+		vh.CoqBool(comb), vh.CoqBool(b), vh.CoqBool(c), vh.CoqBool(r), c18CoqSteps(steps), c18CoqEvents(ev), c18CoqResult(res))
+	desc := map[string]interface{}{"combined": comb, "begin_ok": b, "commit_ok": c, "rollback_ok": r,
+		"steps(0 ok,1 error,2 panic,3 error wrapping context.Canceled,4 wrapping DeadlineExceeded,5 step rolls back itself)": steps, "events": ev, "result": res}
+	for k, v := range extra {
+		desc[k] = v
+	}
+	return vh.Case{Coq: coq, Class: class, Nontrivial: len(steps) > 0, Desc: desc}
+}
+
 func main() {
 	vh.Main("c18", func(e *vh.Env) {
 		maxSteps := 4
 		if e.Thorough || e.Search {
 			maxSteps = 5
 		}
-		var rec func(prefix []int, n int)
-		emit := func(steps []int) {
+		d := c18NewDBLocked()
+		emit := func(steps []int, tag string) {
 			for m := 0; m < 16; m++ {
 				b, c, r, comb := m&1 != 0, m&2 != 0, m&4 != 0, m&8 != 0
-				ev, res := c18RunOne(b, c, r, steps, comb)
-				ss := make([]string, len(steps))
-				for i, k := range steps {
-					switch k {
-					case 0:
-						ss[i] = "SOk"
-					case 1:
-						ss[i] = fmt.Sprintf("SFail %d", i)
-					case 2:
-						ss[i] = fmt.Sprintf("SPanic %d", i)
-					}
-				}
-				coq := fmt.Sprintf("(%s, {| begin_ok := %s; commit_ok := %s; rollback_ok := %s; steps := %s |}, (%s, %s))",
-					vh.CoqBool(comb), vh.CoqBool(b), vh.CoqBool(c), vh.CoqBool(r), vh.CoqList(ss), c18CoqEvents(ev), c18CoqResult(res))
+				ev, res := d.run(b, c, r, steps, comb)
 				cls := "direct"
 				if comb {
 					cls = "combined"
 				}
-				e.Emit(vh.Case{Coq: coq, Class: fmt.Sprintf("%s steps=%d", cls, len(steps)), Nontrivial: len(steps) > 0,
-					Desc: map[string]interface{}{"combined": comb, "begin_ok": b, "commit_ok": c, "rollback_ok": r, "steps": steps, "events": ev, "result": res}})
+				e.Emit(c18Case(comb, b, c, r, steps, ev, res, fmt.Sprintf("%s%s steps=%d", cls, tag, len(steps)), nil))
 			}
 		}
+		var rec func(prefix []int, n int)
 		rec = func(prefix []int, n int) {
 			if len(prefix) == n {
-				emit(prefix)
+				emit(prefix, "")
 				return
 			}
 			for k := 0; k < 3; k++ {
@@ -211,7 +296,88 @@ func main() {
 		for n := 0; n <= maxSteps; n++ {
 			rec(nil, n)
 		}
+		// errors that wrap a context error (they are ordinary step failures), and a last step that ends the
+		// transaction itself: every position / prefix of ok steps up to maxSteps
+		for n := 1; n <= maxSteps; n++ {
+			for pos := 0; pos < n; pos++ {
+				for _, k := range []int{3, 4} {
+					st := make([]int, n)
+					st[pos] = k
+					emit(st, " ctx-error")
+				}
+			}
+			st := make([]int, n)
+			st[n-1] = 5
+			emit(st, " step-ends-tx")
+		}
+		// concurrent callers sharing ONE combined step (and one set of step functions), each in its own
+		// transaction on its own database handle; every distinct (configuration, observed trace) is emitted once
+		workers, per := 8, e.Scale(25000, 150000)
+		type obs struct {
+			key   string
+			c     vh.Case
+			count int
+		}
+		var mu sync.Mutex
+		seen := map[string]*obs{}
+		var wg sync.WaitGroup
+		start := make(chan struct{})
+		for w := 0; w < workers; w++ {
+			wg.Add(1)
+			seed := e.Seed*1000 + int64(w)
+			go func(w int) {
+				defer wg.Done()
+				rnd := rand.New(rand.NewSource(seed))
+				dw := c18NewDBLocked()
+				<-start
+				for it := 0; it < per; it++ {
+					n := 1 + rnd.Intn(3)
+					st := make([]int, n)
+					if rnd.Intn(2) == 0 {
+						st[rnd.Intn(n)] = 1 + rnd.Intn(2)*2 // 1 or 3
+					}
+					comb := rnd.Intn(4) != 0
+					c := rnd.Intn(8) != 0
+					ev, res := dw.run(true, c, true, st, comb)
+					cs := c18Case(comb, true, c, true, st, ev, res, "concurrent shared step", map[string]interface{}{"concurrent_callers": workers})
+					mu.Lock()
+					if o, ok := seen[cs.Coq]; ok {
+						o.count++
+					} else {
+						seen[cs.Coq] = &obs{key: cs.Coq, c: cs, count: 1}
+					}
+					mu.Unlock()
+				}
+			}(w)
+		}
+		close(start)
+		wg.Wait()
+		keys := make([]string, 0, len(seen))
+		for k := range seen {
+			keys = append(keys, k)
+		}
+		sort.Strings(keys)
+		total := 0
+		for _, k := range keys {
+			o := seen[k]
+			total += o.count
+			if m, ok := o.c.Desc.(map[string]interface{}); ok {
+				m["times_observed"] = o.count
+			}
+			e.Emit(o.c)
+		}
+		e.Meta["concurrent_transactions"] = total
+		e.Meta["concurrent_distinct_observations"] = len(keys)
 		e.Meta["exhaustive"] = true
-		e.Meta["space"] = fmt.Sprintf("all step vectors in {ok,fail,panic}^n for n=0..%d x begin/commit/rollback in {ok,fail} x {steps passed directly, steps wrapped by Combine}", maxSteps)
+		e.Meta["space"] = fmt.Sprintf("all step vectors in {ok,fail,panic}^n for n=0..%d x begin/commit/rollback in {ok,fail} x {steps passed directly, steps wrapped by Combine}; plus context-error and step-ends-transaction vectors; plus %d concurrent transactions over one shared combined step", maxSteps, total)
 	})
+}
+
+var c18NewMu sync.Mutex
+
+// sql.Register is not safe for concurrent use
+func c18NewDBLocked() *c18DB {
+	c18NewMu.Lock()
+	defer c18NewMu.Unlock()
+	return c18NewDB()
 }
